@@ -101,13 +101,37 @@ func (c11) Plan(tier string, seed int64) []mon.Workload {
 	}
 	return []mon.Workload{{Name: "table", N: n, Exhaustive: true}, {Name: "random", N: rnd}, {Name: "sequences", N: rnd / 2},
 		{Name: "after-error", N: rnd / 4},
-		{Name: "alias-pairs", N: int64(len(c11AliasOps) * len(c11AliasKeys) * len(c11AliasKeys) * 3), Exhaustive: true}}
+		{Name: "alias-pairs", N: int64(len(c11AliasOps) * len(c11AliasKeys) * len(c11AliasKeys) * 3), Exhaustive: true},
+		{Name: "shared-parts", N: int64(len(c11SharedBuilds) * len(c11SharedUses)), Exhaustive: true}}
 }
 
 // alias-pairs (exhaustive): `_` stands for `message` in every spelling of a
 // key (identifier, string literal) and in both argument positions, also when
 // both arguments name the same key through different spellings; message is a
 // field, a tag, or absent.
+// shared-parts (exhaustive): strfmt / printf format every argument they are
+// given: a container whose parts are SHARED (the same list twice, a map in a
+// list and in a list inside it) is not a container that contains itself.
+var c11SharedBuilds = []string{"b = [1, 2]\na = [b, b]", "b = {\"k\": 1}\na = {\"p\": b, \"q\": b}", "m = [7]\na = [m, [m]]", "b = [1]\nc = [b, b]\na = [c, c, b]", "b = []\na = [b, b]",
+	"b = [1, 2]\na = [[1, 2], [1, 2]]", "b = [1]\na = [b]\nb[0] = a"}
+var c11SharedUses = []string{"strfmt(out, \"%v\", a)", "strfmt(out, \"%v|%v\", a, b)", "printf(\"%v\\n\", a)", "strfmt(out, \"%s and %d\", a, 1)", "add_key(out, a)", "strfmt(out, \"%v %v\", b, b)"}
+
+func c11SharedCase(i int64) c11Case {
+	use := c11SharedUses[int(i)%len(c11SharedUses)]
+	build := c11SharedBuilds[int(i)/len(c11SharedUses)]
+	text := build + "\n" + use + "\np(get_key(out))\n"
+	o := drive.Parse("shared-parts", text)
+	if o.Err != nil {
+		return c11Case{Skip: true}
+	}
+	l, err := gt.FromStmts(o.Stmts)
+	if err != nil {
+		return c11Case{Skip: true}
+	}
+	pt := ref.NewPoint("meas", nil, map[string]any{"b1": int64(41)}, time.Unix(1700000123, 0))
+	return c11Case{Stmts: gt.CloneStmts(l), Point: pt, Cell: "shared"}
+}
+
 var c11AliasKeys = []string{"_", "message", "\"_\"", "\"message\"", "k"}
 var c11AliasOps = []string{"rename(A, B)", "add_key(A, B)", "rename(A, B)\nrename(B, A)", "set_tag(A)\nrename(B, A)", "strfmt(A, \"%v|%v\", B, 1)", "add_key(A, 5)\ndrop_key(B)", "cast(A, \"str\")\nuppercase(B)"}
 
@@ -343,6 +367,13 @@ func (k c11) Describe(c *mon.Ctx, workload string, i int64) any {
 		cs := k.sequence(c)
 		return map[string]any{"source": gt.Print(gt.ParenthesizeStmts(cs.Stmts), nil), "point": cs.Point.Show()}
 	}
+	if workload == "shared-parts" {
+		cs := c11SharedCase(i)
+		if cs.Skip {
+			return "skipped combination"
+		}
+		return map[string]any{"source": gt.Print(gt.ParenthesizeStmts(cs.Stmts), nil)}
+	}
 	if workload == "alias-pairs" {
 		cs := c11AliasCase(i)
 		if cs.Skip {
@@ -406,6 +437,14 @@ func (k c11) Run(c *mon.Ctx, workload string, i int64) {
 	if workload == "sequences" {
 		cs := k.sequence(c)
 		runBuiltinCase(c, cs.Stmts, cs.Point, "", ref.Merge(ref.ProbeFuncs(), ref.FieldFuncs()), "c11.p")
+		return
+	}
+	if workload == "shared-parts" {
+		cs := c11SharedCase(i)
+		if cs.Skip {
+			return
+		}
+		runBuiltinCase(c, cs.Stmts, cs.Point, cs.Cell, ref.Merge(ref.ProbeFuncs(), ref.FieldFuncs()), "c11.p")
 		return
 	}
 	if workload == "alias-pairs" {
